@@ -196,6 +196,22 @@ class Writer:
                 f"(in {segment_addresses_str})."
             )
 
+        if data_length < 0 or data_length % 2 == 1:
+            raise FlipJumpWriteFjmException(
+                f"data-length must be a non-negative even number - whole ops (in {segment_addresses_str})."
+            )
+
+        if data_start < 0 or data_start + data_length > len(self.data):
+            raise FlipJumpWriteFjmException(
+                f"the segment's data range [{data_start}, {data_start + data_length}) is outside the data added so far"
+                f" ({len(self.data)} words) (in {segment_addresses_str})."
+            )
+
+        if segment_start < 0 or segment_start >= (1 << 64) or segment_length >= (1 << 64):
+            raise FlipJumpWriteFjmException(
+                f"segment addresses and lengths must fit the 64-bit fields of the .fjm format (in {segment_addresses_str})."
+            )
+
         self._validate_segment_not_overlapping(segment_start, segment_length, data_start, data_length)
 
         if self.version in (FJMVersion.RelativeJumpVersion, FJMVersion.CompressedVersion):
@@ -209,6 +225,11 @@ class Writer:
         @param data: [in]: a list of words
         @return: the data start index
         """
+        word_limit = 1 << self.word_size
+        for word in data:
+            if not 0 <= word < word_limit:
+                raise FlipJumpWriteFjmException(f"data word {word} doesn't fit in {self.word_size} bits (the memory-width).")
+
         data_start = len(self.data)
         self.data += data
         return data_start
